@@ -10,6 +10,9 @@ its children are expanded; returning ('stop', ev) records ev and does not descen
 from . import hir
 
 TERMINATORS = ("break", "continue", "return", "exit", "panic")
+# Option / Result / iterator methods whose closure argument is run for some values and not for others
+COMBINATORS = ("map", "map_err", "and_then", "or_else", "unwrap_or_else", "map_or_else", "map_or", "then", "is_some_and", "is_ok_and",
+               "inspect", "inspect_err", "ok_or_else", "filter", "filter_map", "for_each", "find_map", "unwrap_or_default")
 
 
 def seq_product(prefixes, more):
@@ -118,8 +121,15 @@ def paths(n, classify, limit=4000):
         return [pre]  # closure bodies are not executed here
     # generic: children in order
     res = [[]]
+    follow = getattr(classify, "follow_closures", False) and k == "MethodCall" and n.get("m") in COMBINATORS
     for c in hir.children(n):
-        res = seq_product(res, paths(c, classify, limit))
+        if follow and isinstance(c, dict) and hir.strip(c).get("k") == "Closure":
+            # a closure handed to an Option/Result/iterator combinator runs or does not run, depending on the value
+            body_paths = paths(hir.strip(c)["body"], classify, limit)
+            body_paths = [p_[:-1] if p_ and p_[-1][0] == "return" else p_ for p_ in body_paths]
+            res = seq_product(res, [[("closure-skipped", c)]]) + seq_product(res, body_paths)
+        else:
+            res = seq_product(res, paths(c, classify, limit))
         if len(res) > limit:
             raise OverflowError("too many paths")
     return after(res)
